@@ -447,6 +447,67 @@ def overlapping_fetches(ctx):
                     ctx.violation('a fetch that overlapped with another fetch of the same recording observes what the other holder did to its copy', w)
 
 
+def fetches_of_an_object_the_store_does_not_show(ctx):
+    """The cassette that SAVED a recording is asked for it while the store does not show the object (not visible yet, expired, removed
+    behind the cassette): either there is no such recording, or what is handed out is - like every fetched recording - an object graph
+    of its own: independent of other fetches, of the recording object that was saved and of the service's live objects."""
+    import os
+    from playback.exceptions import NoSuchRecording
+    from vlib.values import Obj
+    for kind in ('s3', 'file'):
+        for rnd in range(3 if ctx.quick else 12):
+            with open_box(kind, prefix=('', 'lost/')[rnd % 2]) as box:
+                cas = box.cassette
+                live_rows = [[1, 2], {'k': [3]}, Obj(name='o', items=[4])]
+                live_md = {'stops': ['a', 'b'], 'plan': {'legs': [1, 2]}}
+                rec = cas.create_new_recording('Cat')
+                rec.set_data('rows', {'value': live_rows})
+                rec.set_data('n', {'value': [5]})
+                rec.add_metadata(live_md)
+                others = []
+                for j in range(rnd % 3):
+                    o = cas.create_new_recording('Cat')
+                    o.set_data('n', {'value': [j]})
+                    cas.save_recording(o)
+                    others.append(o)
+                cas.save_recording(rec)
+                if kind == 's3':
+                    for key in [k for k in box.fake.snapshot() if '/full/' in k and k.endswith(rec.id)]:
+                        box.fake._b('bkt').pop(key)          # (not a request of any client: the store simply does not show it)
+                else:
+                    for name in os.listdir(cas.directory):
+                        if rec.id.rsplit('/', 1)[-1] in name:
+                            os.remove(os.path.join(cas.directory, name))
+                w = {'store_does_not_show_the_object': True, 'cassette': kind, 'round': rnd}
+                ctx.case(w)
+                got = []
+                for i in range(2):
+                    try:
+                        got.append(cas.get_recording(rec.id))
+                    except NoSuchRecording:
+                        got.append(None)
+                    except BaseException as ex:  # noqa
+                        ctx.count('fetch_of_a_lost_object_ended_with_' + type(ex).__name__)
+                        got.append(None)
+                ctx.count('fetches_of_objects_the_store_does_not_show', 2)
+                if got[0] is None or got[1] is None:
+                    ctx.count('answered_no_such_recording')
+                    continue
+                a, b = got
+                if a is b or shares_mutable(a.get_metadata(), b.get_metadata()) or any(shares_mutable(a.get_data_direct(k), b.get_data_direct(k)) for k in ('rows', 'n')):
+                    ctx.violation('two fetches of a recording the store does not show share %s' % ('the recording object' if a is b else 'mutable objects'), w)
+                    continue
+                if shares_mutable(a.get_metadata(), live_md) or shares_mutable(a.get_data_direct('rows'), live_rows) or \
+                        shares_mutable(a.get_metadata(), rec.get_metadata()):
+                    ctx.violation('a fetched recording shares mutable objects with the recording object that was saved / the live objects of the service', w)
+                    continue
+                mutate_deep(a.get_metadata())
+                mutate_deep(a.get_data_direct('rows'))
+                mutate_deep(live_rows)
+                if not teq(b.get_metadata().get('stops'), ['a', 'b']) or not teq(b.get_data('n'), {'value': [5]}) or not teq(b.get_data('rows')['value'][0], [1, 2]):
+                    ctx.violation('a fetched recording observes what another holder did to its copy', w)
+
+
 def concurrent_reads(ctx):
     """Fresh copies are also promised to readers on different threads: two threads read recorded values (with shared sub-objects)
     at the same time. Explored with the deterministic scheduler; the preemption points include the lines of the serializer
@@ -735,6 +796,7 @@ def run(ctx):
     concurrent_reads(ctx)
     if ctx.shard == 0:
         overlapping_fetches(ctx)
+        fetches_of_an_object_the_store_does_not_show(ctx)
         async_live_reads(ctx)
         concurrent_fetches_under_scheduler(ctx)
     if not ctx.quick and ctx.shard == 0:
@@ -757,6 +819,8 @@ def replay(ctx, w):
         return concurrent_fetches_under_scheduler(ctx)
     if w.get('async_live_reads'):
         return async_live_reads(ctx)
+    if w.get('store_does_not_show_the_object'):
+        return fetches_of_an_object_the_store_does_not_show(ctx)
     if w.get('overlapping_fetches'):
         return overlapping_fetches(ctx)
     s = w['case_seed']
